@@ -170,7 +170,10 @@ def write_evidence(run, plan_meta, wall, nviol):
         "evaluations": run.evaluations,
         "distinct_nontrivial": distinct,
         "rule": plan_meta.get("rule", ""),
-        "exhaustive": bool(run.exhaustive),
+        # true only when everything this run explored was a completely enumerated finite space; the bounded instances that
+        # were enumerated completely are flagged one by one in model_checking_runs
+        "exhaustive": bool(run.exhaustive) and not getattr(run, "sampled", False),
+        "exhaustive_instances": [r["instance"] for r in run.mc_runs if r.get("exhaustive")],
         "checker_cmd": "java -cp tla2tools.jar:CommunityModules-deps.jar tlc2.TLC (spec/*.tla, overrides HPReal.class, VerifIO.class)",
         "trusted_base": ["TLC 1.8.0", "spec/HPReal.java on java.math.BigDecimal", "harness/project.py (projection)", "harness/record.py"],
         "class_counts": dict(sorted(run.class_counts.items())),
